@@ -65,6 +65,9 @@ pub struct Case {
     pub nested_order: Vec<u16>,
     /// event buffer limits to try (besides "no limit"); empty = all of 1..=total+2
     pub limits: Vec<u16>,
+    /// deserialize through Deserializer::from_reader over 3-byte pieces instead of from_str
+    #[serde(default)]
+    pub via_reader: bool,
 }
 
 pub fn info() -> PropInfo {
@@ -72,7 +75,7 @@ pub fn info() -> PropInfo {
         id: "C20",
         run,
         replay,
-        rule: "cases = (value of a struct with two or three list fields, scalar fields and list items that themselves contain same-named lists; an order-preserving interleaving of its child elements, also of the children of nested items; event-buffer limits). The contiguous serialization is cut into child elements and re-assembled in the chosen interleaving. Without a limit from_str(interleaved) == value. With limit k: the result is that value or TooManyEvents; success is monotone in k; every k below L must fail, where L is the largest number of deserializer events of not-yet-consumed foreign siblings lying strictly between the first and last item of a list at the time that list is deserialized (they have to be skipped while the sequence is read); every k >= total number of child events must succeed. ALL interleavings for values with <= 7 children, random ones above; limits 1..total+2. Non-trivial = the interleaving is not the contiguous one and at least one foreign sibling lies between two items of a list.",
+        rule: "cases = (value of a struct with two or three list fields, scalar fields and list items that themselves contain same-named lists; an order-preserving interleaving of its child elements, also of the children of nested items; event-buffer limits; Deserializer::from_str or from_reader over 3-byte pieces). The contiguous serialization is cut into child elements and re-assembled in the chosen interleaving. Without a limit from_str(interleaved) == value. With limit k: the result is that value or TooManyEvents; success is monotone in k; every k below L must fail, where L is the largest number of deserializer events of not-yet-consumed foreign siblings lying strictly between the first and last item of a list at the time that list is deserialized (they have to be skipped while the sequence is read); every k >= total number of child events must succeed. ALL interleavings for values with <= 7 children, random ones above; limits 1..total+2. Non-trivial = the interleaving is not the contiguous one and at least one foreign sibling lies between two items of a list.",
         assumptions: &["between L and the total event count either outcome is accepted (the exact threshold of the algorithm is not asserted)", "feature overlapped-lists (feature set full) only"],
         level: "exploration",
         variants: &["full"],
@@ -245,7 +248,16 @@ fn build(c: &Case) -> Option<Built> {
 }
 
 #[cfg(feature = "full")]
-fn de_with_limit(v: &OvVal, xml: &str, limit: Option<usize>) -> Result<OvVal, quick_xml::DeError> {
+fn de_with_limit(v: &OvVal, xml: &str, limit: Option<usize>, via_reader: bool) -> Result<OvVal, quick_xml::DeError> {
+    if via_reader {
+        let src = crate::sources::ChunkedBufRead::new(xml.as_bytes(), crate::sources::cuts_fixed(3, xml.len()));
+        let mut de = quick_xml::de::Deserializer::from_reader(src);
+        de.event_buffer_size(limit.and_then(std::num::NonZeroUsize::new));
+        return match v {
+            OvVal::Ov(_) => Ov::deserialize(&mut de).map(OvVal::Ov),
+            OvVal::Ov2(_) => Ov2::deserialize(&mut de).map(OvVal::Ov2),
+        };
+    }
     let mut de = quick_xml::de::Deserializer::from_str(xml);
     de.event_buffer_size(limit.and_then(std::num::NonZeroUsize::new));
     match v {
@@ -255,7 +267,7 @@ fn de_with_limit(v: &OvVal, xml: &str, limit: Option<usize>) -> Result<OvVal, qu
 }
 
 #[cfg(not(feature = "full"))]
-fn de_with_limit(_v: &OvVal, _xml: &str, _limit: Option<usize>) -> Result<OvVal, quick_xml::DeError> {
+fn de_with_limit(_v: &OvVal, _xml: &str, _limit: Option<usize>, _via_reader: bool) -> Result<OvVal, quick_xml::DeError> {
     Err(quick_xml::DeError::Custom("overlapped-lists is not enabled in this build".into()))
 }
 
@@ -271,7 +283,7 @@ pub fn check(c: &Case) -> Verdict {
         Some(b) => b,
         None => return Verdict::excluded("not-splittable"),
     };
-    match de_with_limit(&c.value, &b.doc, None) {
+    match de_with_limit(&c.value, &b.doc, None, c.via_reader) {
         Ok(v) if v == c.value => {}
         Ok(v) => return Verdict::fail(format!("interleaved document {:?} deserializes to {:?}, expected {:?}", b.doc, v, c.value)),
         Err(e) => return Verdict::fail(format!("interleaved document {:?} fails without a limit: {}", b.doc, e)),
@@ -282,7 +294,7 @@ pub fn check(c: &Case) -> Verdict {
     sorted.dedup();
     let mut succeeded_at: Option<usize> = None;
     for k in sorted {
-        match de_with_limit(&c.value, &b.doc, Some(k)) {
+        match de_with_limit(&c.value, &b.doc, Some(k), c.via_reader) {
             Ok(v) => {
                 if v != c.value {
                     return Verdict::fail(format!("limit {}: document {:?} deserializes to {:?}, expected {:?}", k, b.doc, v, c.value));
@@ -381,11 +393,11 @@ fn run(ctx: &Ctx) {
             }
             .unwrap();
             let (_, units, _) = split_children(&doc).unwrap();
-            all_orders(&units).into_iter().enumerate().map(|(k, order)| Case { value: v.clone(), order, nested_order: vec![(k as u16).wrapping_mul(9973), (k as u16).wrapping_mul(31), 40000, 123], limits: vec![] }).collect()
+            all_orders(&units).into_iter().enumerate().map(|(k, order)| Case { value: v.clone(), order, nested_order: vec![(k as u16).wrapping_mul(9973), (k as u16).wrapping_mul(31), 40000, 123], limits: vec![], via_reader: k % 3 == 2 }).collect()
         },
         check,
     );
-    let strat = || Box::new((value_strategy(4), prop::collection::vec(any::<u16>(), 0..16), prop::collection::vec(any::<u16>(), 0..12), prop::collection::vec(any::<u16>(), 0..6)).prop_map(|(value, order, nested_order, limits)| Case { value, order, nested_order, limits }));
+    let strat = || Box::new((value_strategy(4), prop::collection::vec(any::<u16>(), 0..16), prop::collection::vec(any::<u16>(), 0..12), prop::collection::vec(any::<u16>(), 0..6), any::<bool>()).prop_map(|(value, order, nested_order, limits, via_reader)| Case { value, order, nested_order, limits, via_reader }));
     ctx.run_proptest_with("random-interleavings", ctx.tier.pick(600_000, 5_000_000), strat, check);
 }
 
